@@ -508,6 +508,32 @@ def replay(params, model, notes, workdir, seed):
         point("open-" + ("w" if flags & os.O_TRUNC else "r+"), path)
         return real_os_open(path, flags, mode, **k)
 
+    import tempfile as _tf
+    real_os_write, real_mkstemp = os.write, _tf.mkstemp
+
+    def fake_os_write(fd, data):
+        if state["dead"]:
+            raise Died()
+        r = point("write", "<fd>")
+        if r == "shortret":
+            return real_os_write(fd, bytes(data)[:max(0, len(data) // 2)])
+        if r in ("enospc", "short"):
+            real_os_write(fd, bytes(data)[:max(0, len(data) // 2)])
+            if r == "enospc":
+                raise OSError(28, "No space left on device")
+            die()
+        return real_os_write(fd, data)
+
+    def fake_mkstemp(*a, **k):
+        if state["dead"]:
+            raise Died()
+        point("open-x", "<mkstemp>")
+        os.open = real_os_open          # mkstemp opens through os.open itself: one operation, not two
+        try:
+            return real_mkstemp(*a, **k)
+        finally:
+            os.open = fake_os_open
+
     def fake_fdopen(fd, mode="r", buffering=-1, **k):
         wf = WFile(real_fdopen(fd, mode, 0 if "b" in mode else buffering, **k), "<fd>")
         wf.raw = buffering == 0
@@ -554,6 +580,7 @@ def replay(params, model, notes, workdir, seed):
     builtins.open, os.remove, os.replace, os.rename = fake_open, fake_remove, fake_replace, fake_rename
     os.unlink = fake_remove
     os.open, os.fdopen = fake_os_open, fake_fdopen
+    os.write, _tf.mkstemp = fake_os_write, fake_mkstemp
     try:
         try:
             ed.edit_torrent(mpath, dict(req))
@@ -565,6 +592,7 @@ def replay(params, model, notes, workdir, seed):
         builtins.open, os.remove, os.replace, os.rename = real_open, real_remove, real_replace, real_rename
         os.unlink = real_remove
         os.open, os.fdopen = real_os_open, real_fdopen
+        os.write, _tf.mkstemp = real_os_write, real_mkstemp
         _sh.copyfile, _sh.copy, _sh.copy2 = real_copyfile, real_copy, real_copy2
     if not os.path.exists(mpath):
         return ["C17.complete-after-fault (metafile missing)"]
